@@ -6,6 +6,7 @@ verdict AND bindings are a function of those three answers; `C17_attrs` ties thi
 the functions on the check path read nothing else of the checked object.
 -/
 import JaxVerif.Spec.Calls
+import JaxVerif.Lemmas.Payload
 import JaxVerif.Generated.ObjAttrs
 
 namespace JV
@@ -48,6 +49,30 @@ theorem C17_trace (c : Catch) (tp : TreePath) (l : List (Ann × ArrObj)) (f : Ar
   induction l with
   | nil => exact .nil
   | cons p ps ih => exact .cons ⟨rfl, rfl, rfl, rfl⟩ ih
+
+/-- **every annotation in scope, PyTrees included**: two values that are the same tree with arrays of
+    the same class, dtype and shape at the same places (`Obj.Sim`: element values and everything else
+    about the arrays may differ) get the same verdict and leave the same state, for every leaf type
+    (arrays, classes, tuples, unions, `PyTree[...]` with or without structure names and `?` axes) -/
+theorem C17_pytree (sk : Skel) (l : LType) (x y : Obj) (st : CState) (h : Obj.Sim x y) :
+    checkL sk l x st = checkL sk l y st :=
+  checkL_sim sk l x y st h
+
+/-- hence the typechecker's pass over the parameters of a call with arbitrary such annotations -/
+theorem C17_params (sk : Skel) (ps qs : List Param) (st : TState)
+    (h : All2 (fun p q => p.name = q.name ∧ p.ty = q.ty ∧ Obj.Sim p.val q.val) ps qs) :
+    checkParams sk ps st = checkParams sk qs st := by
+  induction h generalizing st with
+  | nil => rfl
+  | @cons p q ps qs hpq _ ih =>
+    obtain ⟨hn, ht, hv⟩ := hpq
+    have hf : checkL sk p.ty p.val = checkL sk q.ty q.val := by
+      funext c
+      rw [ht]
+      exact checkL_sim sk q.ty p.val q.val c hv
+    simp only [checkParams, hf, hn]
+    cases onTop st (checkL sk q.ty q.val) with
+    | mk st1 v => cases v <;> simp only [ih]
 
 /-- the source read today: the check path reads `shape` and `dtype` of the checked object and
     nothing else, and hands the bare object only to `isinstance`, `hasattr` and its own two
